@@ -225,6 +225,59 @@ for _ in range(60 if not R.thorough else 400):
 for t in LONG:
     R.check("ORFs are the in-frame stretches from each start codon to the first stop / frame end", "orf in several frames", {"seq": t}, lambda t=t: orf_contract(t))
 
+def ambiguous_translation(text, ambiguous, complete):
+    """translate() on a sequence over the ambiguous alphabet: the result is the codon-wise lookup, and a codon
+    without a table entry (or an alphabet the table does not cover) raises AlphabetError - never another value"""
+    s = seq.NucleotideSequence(text, ambiguous=ambiguous)
+    table = seq.CodonTable.default_table()
+    cd = table.codon_dict()
+    try:
+        if complete:
+            got = str(s.translate(complete=True, codon_table=table))
+        else:
+            prots, pos = s.translate(complete=False, codon_table=table)
+            got = sorted((int(a), int(b), str(p)) for p, (a, b) in zip(prots, pos))
+    except seq.AlphabetError:
+        return None
+    if any(text[i:i + 3] not in cd for i in range(0, len(text) - 2, 3)) and complete:
+        return f"translate(complete=True) of {text!r} = {got!r} although a codon has no table entry (AlphabetError expected)"
+    if complete:
+        exp = "".join(cd[text[i:i + 3]] for i in range(0, len(text), 3))
+        return None if got == exp else f"translate(complete=True) of {text!r} = {got!r}, codon-wise lookup gives {exp!r}"
+    if any(ch not in "ACGT" for ch in text):
+        # every frame is scanned: a symbol without table entries can not be looked up
+        return f"translate(complete=False) of {text!r} = {got!r} although it has symbols no codon table covers (AlphabetError expected)"
+    return orf_contract_text(text, got)
+
+
+def orf_contract_text(text, got):
+    table = seq.CodonTable.default_table()
+    starts = set(table.start_codons())
+    cd = table.codon_dict()
+    exp = []
+    for frame in range(3):
+        for i in range(frame, len(text) - 2, 3):
+            if text[i:i + 3] in starts:
+                j, aa = i, []
+                while j + 3 <= len(text):
+                    aa.append(cd[text[j:j + 3]])
+                    j += 3
+                    if aa[-1] == "*":
+                        break
+                exp.append((i, j, "".join(aa)))
+    return None if got == sorted(exp) else f"ORFs {got} != in-frame stretches {sorted(exp)}"
+
+
+for text in ["ATGAARTAA", "ATGAANTGA", "ATGANATAA", "NNN", "ATGRRRTAA", "ATGYTAA", "ATGAAATAA", "ATGWSKMBDHV", "TTGAAATAG"]:
+    for amb in (None, True):
+        for complete in (True, False):
+            if complete and len(text) % 3:
+                continue
+            R.check("translation == codon-wise lookup; codons without entry raise AlphabetError",
+                    "translate over the ambiguous alphabet", {"seq": text, "ambiguous": amb, "complete": complete},
+                    lambda text=text, amb=amb, complete=complete: ambiguous_translation(text, amb, complete))
+
+
 mapper_src, mapper_tgt = seq.NucleotideSequence.alphabet_unamb, seq.NucleotideSequence.alphabet_amb
 
 
